@@ -138,7 +138,7 @@ type snapshot struct {
 var stores = []string{"etht_", "ethsuccess_", "ethfailed_"}
 
 func decode(dump []harness.KV) (*snapshot, error) {
-	s := &snapshot{trackers: map[string]map[string]*dTracker{}, bal: map[string]map[string]*big.Int{"ETH": {}, "TTC": {}}}
+	s := &snapshot{trackers: map[string]map[string]*dTracker{}, bal: newWrappedLedger()}
 	for _, kv := range dump {
 		k := string(kv.K)
 		for _, p := range stores {
@@ -157,7 +157,7 @@ func decode(dump []harness.KV) (*snapshot, error) {
 		if strings.HasPrefix(k, "b_") {
 			i := strings.LastIndexByte(k, '_')
 			cur := k[i+1:]
-			if cur != "ETH" && cur != "TTC" {
+			if _, ok := s.bal[cur]; !ok {
 				continue
 			}
 			var str string
@@ -559,7 +559,7 @@ func (m *model) endBlock(dump []harness.KV) error {
 		}
 	}
 	// exact comparison of every wrapped balance (mint/refund amounts, beneficiaries, redeem debits)
-	for _, cur := range []string{"ETH", "TTC"} {
+	for _, cur := range wrapped {
 		addrs := map[string]bool{}
 		for a := range s.bal[cur] {
 			addrs[a] = true
